@@ -2,6 +2,7 @@
 import MagpyVerif.Model.Kernels
 import MagpyVerif.Model.Cylinder
 import MagpyVerif.Model.Celv
+import MagpyVerif.Model.CylinderBatch
 import MagpyVerif.Model.CylSegWrap
 import MagpyVerif.Model.CylSegSpecial
 import MagpyVerif.Gen.Const
@@ -118,6 +119,21 @@ def run : P String := do
         let x ← flt; let kc ← flt; let p ← flt
         vs := vs ++ [CylSegF.el30 x kc p]
       pure (" ".intercalate (vs.map fun v => s!"{v.toBits}"))
+  | "cylbatch" => do
+      -- `BHJM_magnet_cylinder` on a whole batch (Model/CylinderBatch.lean), `cel` = the dispatcher `celDispatch`; mode `b`: the batch,
+      -- mode `r`: every row through the one-row model `bhjmCylinder` (what a call with that row alone computes)
+      let mode ← tok
+      let f ← field
+      let k ← nat
+      let mut rows : List (CylRow Float) := []
+      for _ in [0:k] do
+        let d ← flt; let h ← flt; let p ← v3; let x ← v3
+        rows := rows ++ [{ d := d, h := h, pol := p, x := x }]
+      let res := if mode == "b" then bhjmCylinderBatch (celDispatch 200) 200 f rows
+                 else seqOpt (rows.map fun row => bhjmCylinder 200 f (row.d, row.h) row.pol row.x)
+      match res with
+      | some vs => pure (" ".intercalate (vs.map out))
+      | none => pure "none"
   | "cuboidmask" => do
       let d ← v3; let p ← v3; let x ← v3
       let m := cuboidMasks d p x
